@@ -143,7 +143,7 @@ def gate_classifier(found, param=1, var='gate'):
         if m is None:
             return None
         pp = param_path(m['clock'])
-        if pp is None or pp[0] != param:
+        if param is not None and (pp is None or pp[0] != param):
             return None
         found.append(m)
         return (var, orient)
@@ -460,7 +460,8 @@ def quant(facts, t, mapping=None, depth=0):
 def _loopq_desc(d, m, neg):
     """Quantifier descriptor of a loop-form quantifier: value = neg XOR (exists item of src: the iteration reaches a site)."""
     lp = d['loop']
-    return {'kind': 'exists', 'neg': neg, 'src': subst(lp.src, m) if m else lp.src, 'cb': d['body'], 'm': dict(m), 'loopq': d}
+    return {'kind': 'exists', 'neg': neg, 'src': subst(lp.src, m) if m else lp.src, 'cb': d['body'], 'm': dict(m), 'loopq': d,
+            'raw_src': lp.raw_src}
 
 
 def quant_item(q, t):
